@@ -219,6 +219,7 @@ type Execution struct {
 	Trace     []string // only when Options.KeepTrace
 	Preempt   int
 	Races     []string // labels of shared state accessed without happens-before ordering
+	LockOps   int      // mutex / rwmutex / once operations performed
 	Writes    int      // instrumented write events
 	Reads     int      // instrumented read events
 	Pruned    bool     // abandoned because an equivalent state had been explored with at least the same budget
@@ -763,6 +764,7 @@ func (b *base) touch() bool {
 // hb records operation k of the running thread on an object with history hash *oh: both histories
 // absorb each other (pre-values), so that only the order of operations on the same object matters.
 func hb(k opKind, oh *uint64) {
+	s.x.LockOps++
 	t := s.cur
 	th, o := t.h, *oh
 	t.h = mix(th, uint64(k), o)
